@@ -21,10 +21,59 @@ def rand_history(rng, length, universe):
     return ops
 
 
+def guided_history(rng, length, universe):
+    """state-aware histories: most operations are valid on the current framework (existing attacks are removed,
+    removed labels re-added, one or two hub arguments collect many attacks), the rest is arbitrary"""
+    ops = []
+    args, atts = set(), []
+    hubs = rng.sample(universe, min(len(universe), rng.randint(1, 2)))
+    for _ in range(length):
+        r = rng.random()
+        if r < 0.22 or len(args) < 2:
+            a = rng.choice(universe)
+            ops.append("A%d" % a)
+            args.add(a)
+        elif r < 0.60:
+            a = rng.choice(sorted(args))
+            b = rng.choice([h for h in hubs if h in args] or sorted(args)) if rng.random() < 0.6 else rng.choice(sorted(args))
+            ops.append("+%d>%d" % (a, b))
+            if (a, b) not in atts:
+                atts.append((a, b))
+        elif r < 0.82 and atts:
+            # remove an existing attack: bias towards the older ones of a hub (not the last inserted)
+            cand = atts[:-1] if len(atts) > 1 and rng.random() < 0.7 else atts
+            a, b = rng.choice(cand)
+            ops.append("-%d>%d" % (a, b))
+            atts.remove((a, b))
+        elif r < 0.90 and args:
+            a = rng.choice(sorted(args))
+            ops.append("R%d" % a)
+            args.discard(a)
+            atts = [(x, y) for (x, y) in atts if x != a and y != a]
+        else:
+            ops += rand_history(rng, 1, universe)
+            o = ops[-1]
+            # keep the shadow state exact for the arbitrary operation too
+            if o[0] == "A":
+                args.add(int(o[1:]))
+            elif o[0] == "R":
+                a = int(o[1:])
+                if a in args:
+                    args.discard(a)
+                    atts = [(x, y) for (x, y) in atts if x != a and y != a]
+            else:
+                a, b = (int(t) for t in o[1:].split(">"))
+                if o[0] == "+" and a in args and b in args and (a, b) not in atts:
+                    atts.append((a, b))
+                if o[0] == "-" and (a, b) in atts:
+                    atts.remove((a, b))
+    return ops
+
+
 class C12(Property):
     id = "C12"
     families = ["store"]
-    rule = "random update histories (length 5-60) over label universes of 2-8 labels incl. self-attacks, re-insertion of removed labels, repeated removals, invalid operands; plus constructor routes (new_with_labels, new_with_argument_set after set-level removals); after every operation all observers incl. iteration orders are compared with the Lean model, and the model state with the abstract set model; non-trivial = history with at least one removal and one attack"
+    rule = "random update histories (length 5-60) over label universes of 2-8 labels, half of them state-aware (most operations valid on the current framework: existing attacks removed with a bias to older ones, hub arguments collecting many attacks, removed labels re-added), incl. self-attacks, re-insertion of removed labels, repeated removals, invalid operands; plus constructor routes (new_with_labels, new_with_argument_set after set-level removals); after every operation all observers incl. iteration orders are compared with the Lean model, and the model state with the abstract set model; non-trivial = history with at least one removal and one attack"
     assumptions = ["std::collections::HashMap modelled as a finite map", "labels instantiated at usize"]
 
     def cases(self, tier, rng):
@@ -34,7 +83,7 @@ class C12(Property):
             u = rng.randint(2, 8)
             universe = rng.sample(range(1, 40), u)
             length = rng.randint(5, 60 if tier != "quick" else 40)
-            ops = rand_history(rng, length, universe)
+            ops = rand_history(rng, length, universe) if i % 2 == 0 else guided_history(rng, length, universe)
             if i % 10 == 0:
                 init = rng.sample(universe, rng.randint(0, u))
                 if rng.random() < 0.3 and init:
